@@ -12,6 +12,7 @@ import (
 	"math/rand"
 	"net"
 	"os"
+	"strings"
 	"sync"
 	"sync/atomic"
 	"time"
@@ -186,6 +187,48 @@ func main() {
 				atomic.AddInt64(&ops, 1)
 			}
 		}(w)
+	}
+	// readers that scan the stored bytes of a string (BITCOUNT, BITPOS, GETBIT, GETRANGE, STRLEN, LCS) against
+	// writers that keep its length (SETRANGE inside the value, SETBIT, BITFIELD SET, APPEND of nothing): stored
+	// bytes are never changed in place. 16 KiB: long enough for the two to overlap, short enough for the race
+	// detector to keep its history.
+	{
+		init := vs.NewClient()
+		init.Dispatch(toArgv([]string{"SET", "rw:bytes", strings.Repeat("0", 16384)}))
+		init.Close()
+		for w := 0; w < 2; w++ {
+			wg.Add(2)
+			go func(w int) {
+				defer wg.Done()
+				cl := vs.NewClient()
+				defer cl.Close()
+				fills := []string{strings.Repeat("7", 16384), strings.Repeat("0", 16384)}
+				for i := 0; time.Now().Before(deadline); i++ {
+					switch i % 5 {
+					case 0, 1:
+						cl.Dispatch(toArgv([]string{"SETRANGE", "rw:bytes", "0", fills[i%2]}))
+					case 2:
+						cl.Dispatch(toArgv([]string{"SETRANGE", "rw:bytes", "100", fills[i%2][:8000]}))
+					case 3:
+						cl.Dispatch(toArgv([]string{"SETBIT", "rw:bytes", fmt.Sprint(8 * (i % 16000)), "1"}))
+					default:
+						cl.Dispatch(toArgv([]string{"BITFIELD", "rw:bytes", "SET", "u8", fmt.Sprint(8 * (i % 16000)), "55"}))
+					}
+					atomic.AddInt64(&ops, 1)
+				}
+			}(w)
+			go func(w int) {
+				defer wg.Done()
+				cl := vs.NewClient()
+				defer cl.Close()
+				reads := [][]string{{"BITCOUNT", "rw:bytes"}, {"BITPOS", "rw:bytes", "1"}, {"GETBIT", "rw:bytes", "77777"}, {"GETRANGE", "rw:bytes", "0", "-1"},
+					{"STRLEN", "rw:bytes"}, {"BITCOUNT", "rw:bytes", "5", "-5", "BIT"}, {"GET", "rw:bytes"}, {"BITFIELD_RO", "rw:bytes", "GET", "u16", "4000"}}
+				for i := w; time.Now().Before(deadline); i++ {
+					cl.Dispatch(toArgv(reads[i%len(reads)]))
+					atomic.AddInt64(&ops, 1)
+				}
+			}(w)
+		}
 	}
 	// blocked consumers and their pushers, plus CLIENT UNBLOCK
 	for w := 0; w < 3; w++ {
